@@ -9,15 +9,15 @@
 (* module's own action; the specification computes the successor state and *)
 (* it must equal the recorded one.  All design invariants and action       *)
 (* properties are evaluated on every step with the ghost truth.            *)
-(* Numbers are BigNum limbs <<hi, lo>>.  All traces of the file are        *)
+(* Numbers are DigNum digit sequences (arbitrary size: ghost truth doubles with every self-merge).  All traces of the file are        *)
 (* checked in one run: one initial state per trace.                        *)
 (***************************************************************************)
-EXTENDS CountMinLinear, BigNum, Json, IOUtils
+EXTENDS CountMinLinear, DigNum, Json, IOUtils
 VARIABLES tid, l, ok
 tvars == <<vars, tid, l, ok>>
 
 Traces == JsonDeserialize(IOEnv.TRACE_FILE)
-BigCap32 == <<4095, 1048575>>
+BigCap32 == <<1073741823, 3>>     \* 2^32 - 1 in base-2^30 digits
 TSlots == 1..4
 
 TraceEnv(t) ==
